@@ -174,7 +174,9 @@ def gen_feature(rng, n, allow_cites=0):
         parts = ((a, n, st), (0, b, st)) if st != -1 else ((0, b, st), (a, n, st))
     else:
         st = rng.choice([1, -1, 0])
-        parts = tuple((p[0], p[1], st) for p in (gen_part(rng, n, "simple") for _ in range(rng.randint(2, 3))))
+        mixed = rng.random() < 0.35      # parts on different strands (trans-splicing style joins)
+        parts = tuple((p[0], p[1], rng.choice([1, -1]) if mixed else st)
+                      for p in (gen_part(rng, n, "simple") for _ in range(rng.randint(2, 3))))
     ftype = rng.choice([0, 1, 1, 2, 3, 4, 5, 6, 7])
     if ftype == 0 and rng.random() < 0.5:
         parts = ((0, n, rng.choice([0, 1])),)
